@@ -37,7 +37,7 @@ META = {
             "clock frequency per run, power-on reset on/off, 1-7 trigger pulses aimed (with the reference model) at idle cycles, "
             "the first idle cycle, the last busy cycle, mid-reset, mid-stop, held across a whole pulse, plus random ones",
 }
-TIERS = {"quick": {"runs": 14000, "wall": 70}, "thorough": {"runs": 200000, "wall": 900}}
+TIERS = {"quick": {"runs": 28000, "wall": 70}, "thorough": {"runs": 200000, "wall": 900}}
 
 RST_CYCLES = 2
 LATENCIES = (1, 2, 3)
